@@ -168,8 +168,10 @@ type c14Case struct {
 	// Ident identifies the request to fail as "OP key #occurrence": concurrent node PUTs of one flush arrive in
 	// a scheduling-dependent order, so an ordinal position would not be reproducible
 	Ident string `json:"ident,omitempty"`
-	Kind  string `json:"kind"` // transport aws500 ctx
-	Mode  string `json:"mode"` // before applied persistent
+	// Ident2 is a second, independent fault (thorough tier: all pairs, transport error before taking effect).
+	Ident2 string `json:"ident2,omitempty"`
+	Kind   string `json:"kind"` // transport aws500 ctx
+	Mode   string `json:"mode"` // before applied persistent
 }
 
 func init() {
@@ -185,7 +187,7 @@ func c14Run(r *engine.Run) int {
 		names = append(names, s.Name)
 	}
 	r.Bounds["scenarios"] = names
-	r.Bounds["faults_per_run"] = 1
+	r.Bounds["faults_per_run"] = map[bool]string{false: "1", true: "1, and all pairs (transport, before effect)"}[r.Thorough()]
 	r.Assumptions = []string{"a well-formed 'no such object' answer is not injected here (C09 owns it)", "single fault (or one persistent burst) per run", "hang = request budget of 50x the fault-free request count exceeded, or the coarse worker watchdog"}
 	var cases []json.RawMessage
 	for si := range scen {
@@ -200,6 +202,13 @@ func c14Run(r *engine.Run) int {
 		}
 		json.Unmarshal(res.Data, &d)
 		r.Add("c14", engine.J(c14Case{Scen: si, K: -1}), res)
+		if r.Thorough() {
+			for a := 0; a < len(d.Idents); a++ {
+				for b := a + 1; b < len(d.Idents); b++ {
+					cases = append(cases, engine.J(c14Case{Scen: si, K: a, Ident: d.Idents[a], Ident2: d.Idents[b], Kind: "transport", Mode: "before"}))
+				}
+			}
+		}
 		for k, id := range d.Idents {
 			for _, kind := range []string{"transport", "aws500", "ctx"} {
 				for _, mode := range []string{"before", "applied", "persistent"} {
@@ -247,6 +256,7 @@ func c14Worker(raw json.RawMessage) *engine.Result {
 		return engine.ErrTransport
 	}
 	occ := map[string]int{}
+	fired2 := false
 	var idents []string
 	var identMu sync.Mutex
 	cl.H.Fault = func(rq *engine.Req) (engine.FaultMode, error) {
@@ -260,6 +270,10 @@ func c14Worker(raw json.RawMessage) *engine.Result {
 			return engine.FaultNone, nil
 		}
 		if active {
+			return engine.FailBefore, mkErr()
+		}
+		if c.Ident2 != "" && id == c.Ident2 && !fired2 {
+			fired2 = true
 			return engine.FailBefore, mkErr()
 		}
 		if id == c.Ident && fired == "" {
